@@ -188,6 +188,23 @@ fn check_max_tag(ctx: &Ctx, u: &[&V]) -> Stats {
         .reduce(Stats::default, Stats::merge)
 }
 
+/// one list of tags (in the given order) through find_max_version_tag: the result is a member and no member ranks above it
+fn judge_tag_list(ctx: &Ctx, texts: &[String], st: &mut Stats) {
+    st.inc("long_tag_lists");
+    let parsed: Vec<(String, SemVer, rsv::Parsed)> = texts.iter().map(|t| (t.clone(), SemVer::from_str(t).unwrap_or_else(|e| machinery_error(&format!("list member {t}: {e}"))), rsv::parse(t).unwrap())).collect();
+    let tags: Vec<(String, VersionObject)> = parsed.iter().map(|(t, z, _)| (t.clone(), VersionObject::SemVer(z.clone()))).collect();
+    let key = format!("{} tags: {} ... {}", texts.len(), texts[..texts.len().min(3)].join(" "), texts[texts.len().saturating_sub(3)..].join(" "));
+    let case = json!({"kind":"maxtag","tags":texts});
+    match catch(|| GitUtils::find_max_version_tag(&tags)) {
+        Ok(Ok(Some(t))) => match parsed.iter().find(|(x, _, _)| *x == t) {
+            None => ctx.violation("max_tag_not_a_member", key, case, format!("returned {t:?}")),
+            Some((_, _, r)) => if let Some((b, _, _)) = parsed.iter().find(|(_, _, o)| rsv::cmp(o, r) == Ordering::Greater) { ctx.violation("max_tag_not_maximal", key, case, format!("returned {t}, but {b} ranks above it")); },
+        },
+        Ok(other) => ctx.violation("max_tag_failed", key, case, format!("{other:?}")),
+        Err(p) => ctx.violation(&format!("panic@{}", p.file()), key, case, p.message),
+    }
+}
+
 static REJECTED: std::sync::Mutex<Vec<(String, String)>> = std::sync::Mutex::new(Vec::new());
 
 fn main() {
@@ -231,6 +248,47 @@ fn main() {
         sweep_states += u.len() as u64;
         s_sweep = s_sweep.merge(check_pairs(&ctx, &u));
     }
+    // carry universes: for every value g of the dense grid (numpool), all ordered pairs of {1,2} x {0,1,g} x {0,1,g} core triples x
+    // pre-release {none, rc.1, rc.g, g}: a comparison on a packed / truncated / summed key confuses X.Y.g with X.(Y+1).0 at one g
+    let s_carry = {
+        let grid = numpool::grid();
+        let per: Vec<Stats> = grid.par_iter().map(|g| {
+            let mut texts = vec![];
+            // core numbers above u64 are beyond the parser's range (a representation limit): there g appears as identifier only
+            let gc = if rsv::fits_u64(g) { g.as_str() } else { "1" };
+            for a in ["1", "2"] { for b in ["0", "1", gc] { for c in ["0", "1", gc] { for pre in ["", "-rc.1", "-rc.{g}", "-{g}"] {
+                texts.push(format!("{a}.{b}.{c}{}", pre.replace("{g}", g)));
+            }}}}
+            texts.sort(); texts.dedup();
+            let u = from_texts(texts);
+            let mut st = check_pairs(&ctx, &u);
+            st.add("carry_universe_versions", u.len() as u64);
+            st
+        }).collect();
+        per.into_iter().fold(Stats::default(), Stats::merge)
+    };
+    sweep_states += s_carry.get("carry_universe_versions");
+    // long tag lists: n tags on one commit for every n in 1..=70 and around 100, 128, 256, 512, 1000, 1024, 4096: distinct lower
+    // fillers plus two top candidates of equal core (a pre-release and its final release, or two pre-releases), the greater
+    // one first / in the middle / last
+    let s_long = {
+        let mut ns: Vec<usize> = (1..=70).collect();
+        ns.extend([99, 100, 101, 127, 128, 129, 255, 256, 257, 511, 512, 513, 999, 1000, 1001, 1023, 1024, 1025]);
+        if !quick { ns.extend([4095, 4096, 4097, 10000]); }
+        let jobs: Vec<(usize, usize, usize)> = ns.iter().flat_map(|&n| (0..3).flat_map(move |pos| (0..3).map(move |pair| (n, pos, pair)))).collect();
+        jobs.par_iter().map(|&(n, pos, pair)| {
+            let mut st = Stats::default();
+            let (top, second) = [("9.0.0", "9.0.0-rc.1"), ("9.0.0-rc.10", "9.0.0-rc.9"), ("v9.1.0", "v9.0.99")][pair];
+            let mut l: Vec<String> = (0..n.saturating_sub(2)).map(|i| format!("0.{}.{}", i / 50, i % 50 + 1)).collect();
+            if n >= 2 { l.push(second.to_string()); }
+            let at = match pos { 0 => 0, 1 => l.len() / 2, _ => l.len() };
+            l.insert(at, top.to_string());
+            judge_tag_list(&ctx, &l, &mut st);
+            l.reverse();
+            judge_tag_list(&ctx, &l, &mut st);
+            st
+        }).reduce(Stats::default, Stats::merge)
+    };
     // sub-universes for triples and max-tag: a strided selection of u_build (keeps build variants and equal-precedence members)
     let tri_n = if quick { 160 } else { 600 };
     let stride = (u_build.len() / tri_n).max(1);
@@ -272,7 +330,7 @@ fn main() {
     // determinism replay on the build universe
     if check_pairs(&ctx, &u_build).digest != s_build.digest { machinery_error("determinism replay diverged"); }
 
-    let all = s_main.clone().merge(s_build.clone()).merge(s_wide.clone()).merge(s_hyph).merge(s_tri.clone()).merge(s_mt.clone()).merge(s_names).merge(s_sweep);
+    let all = s_main.clone().merge(s_build.clone()).merge(s_wide.clone()).merge(s_hyph).merge(s_tri.clone()).merge(s_mt.clone()).merge(s_names).merge(s_sweep).merge(s_carry).merge(s_long);
     for (t, e) in REJECTED.lock().unwrap().iter() { ctx.violation("universe_member_rejected", format!("{t:?}"), json!({"kind":"member","text":t}), format!("the real parser rejects this spelling of a valid version: {e}")); }
     let mut cov = Coverage::default();
     cov.states = (u_main.len() + u_build.len() + u_wide.len() + u_hyph.len()) as u64 + sweep_states;
